@@ -1938,10 +1938,10 @@ def gen_gate_cases(rnd, tier):
     cases = []
     alphas = ["abcde", "ts34-m", "aeiou", "abcdefghijklmnopqrstuvwxyz", "tд4ьs3é)i", "øoOo0", COLLIDING, COLLIDING,
               "ab\u0000 -c", "ab\u0000 -c"]      # joined views carry their separator: blank, hyphen, NUL are set elements too
-    n = 40 if tier == "quick" else 800
+    n = 50 if tier == "quick" else 800
     for k in range(n):
         c = Case("C17", "gate")
-        alpha = rnd.choice(alphas)
+        alpha = alphas[k % len(alphas)]           # every alphabet in turn (a fixed share each, whatever the number of alphabets)
         for _ in range(40):
             w = [ord(rnd.choice(alpha)) for _ in range(rnd.randint(1, 9))]
             es = edits_of(w, alpha, rnd, 1)
